@@ -66,6 +66,10 @@ impl<C: GCWorkContext> GCWork<C::VM> for Prepare<C> {
             mmtk.scheduler.work_buckets[WorkBucketStage::Prepare].bulk_add(prepare_mutator_packets);
         }
 
+        #[cfg(feature = "mmtk_verif")]
+        for i in 0..mmtk.scheduler.worker_group.workers_shared.len() {
+            crate::verif::emit_designated(i as u64, "PrepareCollector");
+        }
         for w in &mmtk.scheduler.worker_group.workers_shared {
             let result = w.designated_work.push(Box::new(PrepareCollector));
             debug_assert!(result.is_ok());
@@ -144,6 +148,10 @@ impl<C: GCWorkContext + 'static> GCWork<C::VM> for Release<C> {
         );
         mmtk.scheduler.work_buckets[WorkBucketStage::Release].bulk_add(release_mutator_packets);
 
+        #[cfg(feature = "mmtk_verif")]
+        for i in 0..mmtk.scheduler.worker_group.workers_shared.len() {
+            crate::verif::emit_designated(i as u64, "ReleaseCollector");
+        }
         for w in &mmtk.scheduler.worker_group.workers_shared {
             let result = w.designated_work.push(Box::new(ReleaseCollector));
             debug_assert!(result.is_ok());
